@@ -96,9 +96,16 @@ pub struct AssumeFailed(pub &'static str);
 macro_rules! vassert {
     ($c:expr, $label:expr) => {{
         let c: bool = $c;
+        // A Kani `assert!` also ASSUMES its condition, so a failing monitor hides
+        // every later monitor of the same execution. The driver therefore compiles
+        // the harness crate once per property (env FBV_PROP=<id> at build time):
+        // only that property's monitors are asserted, the others are compiled out.
         #[cfg(kani)]
         {
-            assert!(c, $label);
+            const ACTIVE: bool = $crate::nd::is_active($label);
+            if ACTIVE {
+                assert!(c, $label);
+            }
         }
         #[cfg(not(kani))]
         {
@@ -124,6 +131,30 @@ macro_rules! vcover {
             }
         }
     }};
+}
+
+/// is the monitor `label` ("<PROP>:...") part of the property this build is for?
+/// (`FBV_PROP` unset: all monitors; labels without a property prefix: always)
+pub const fn is_active(label: &str) -> bool {
+    let p = match option_env!("FBV_PROP") {
+        Some(p) => p.as_bytes(),
+        None => return true,
+    };
+    let l = label.as_bytes();
+    if p.is_empty() || l.len() < 4 || l[0] != b'C' || l[3] != b':' {
+        return true;
+    }
+    if l.len() < p.len() {
+        return false;
+    }
+    let mut i = 0;
+    while i < p.len() {
+        if l[i] != p[i] {
+            return false;
+        }
+        i += 1;
+    }
+    true
 }
 
 #[cfg(not(kani))]
